@@ -1,0 +1,38 @@
+//go:build verif
+
+package verifhook
+
+import (
+	"fmt"
+	"sync/atomic"
+)
+
+type handlerFunc func(name, key string)
+
+var handler atomic.Value // of handlerFunc
+
+// Enabled reports that the verif build tag is on.
+const Enabled = true
+
+// Set installs h as the handler called at every point (nil removes it).
+func Set(h func(name, key string)) {
+	if h == nil {
+		handler.Store(handlerFunc(nil))
+		return
+	}
+	handler.Store(handlerFunc(h))
+}
+
+// Point calls the installed handler, if any.
+func Point(name, key string) {
+	if h, _ := handler.Load().(handlerFunc); h != nil {
+		h(name, key)
+	}
+}
+
+// PointV is Point with key = fmt.Sprint(v), formatted only when a handler is installed.
+func PointV(name string, v interface{}) {
+	if h, _ := handler.Load().(handlerFunc); h != nil {
+		h(name, fmt.Sprint(v))
+	}
+}
